@@ -140,3 +140,84 @@ func c04StreamAndLoop(ctx *core.Ctx, r *RT, enc *ssa.Function) {
 	ctx.Check(ok, "C04.S10", ssax.Name(enc)+" › every pair is written on every trip", fnPos(r, enc), "copy(name) and copy(value) on every path through the loop body",
 		"the encoder skips some pairs ("+why+") although the size was computed over all of them: the block ends in zero bytes that decode as an extra empty pair or make the peer reject the frame, and the skipped header is lost")
 }
+
+// c04ReaderOnlyRead — C04.S11: what the decoder yields is a function of the
+// bytes it reads. In the header decoders (and their helpers) a parameter of
+// reader type is only read from or handed on: it is never type-asserted to
+// something that exposes other properties of the transport (RemainingBytes,
+// Len, Flush …) — a rejection that depends on such a property makes the same
+// bytes decode on one transport and fail on another.
+func c04ReaderOnlyRead(ctx *core.Ctx, r *RT) {
+	ctx.Rule("C04.S11", "the decoders depend on their reader only through reading: a reader parameter is never type-asserted to an interface or type that exposes other properties of the transport", 1)
+	n := 0
+	seen := map[*ssa.Function]bool{}
+	for _, name := range []string{"(*v0ProtocolMarshaler).unmarshalHeaders", "readHeader", "(*v0ProtocolMarshaler).unmarshalHeadersFromFrame", "(*FProtocol).ReadRequestHeader", "(*FProtocol).ReadResponseHeader"} {
+		fn := r.FnOpt(name)
+		if fn == nil {
+			continue
+		}
+		for _, g := range localCone(fn, 2) {
+			if seen[g] {
+				continue
+			}
+			seen[g] = true
+			for _, c := range ssax.Calls(g) {
+				if c.ShortName() == "RemainingBytes" {
+					ctx.Check(false, "C04.S11", ssax.Name(g)+" › no RemainingBytes() in the decoders", r.IPos(c.Instr), "",
+						"the decoder consults RemainingBytes() of the transport: buffered, compressed and framed transports report different values for the same stream, so whether a written header map is read back depends on the transport and not on the bytes")
+				}
+			}
+			for _, p := range g.Params {
+				it, isIface := p.Type().Underlying().(*types.Interface)
+				if !isIface || !hasMethod(it, "Read") {
+					continue
+				}
+				n++
+				bad := ""
+				var walk func(v ssa.Value, d int)
+				walk = func(v ssa.Value, d int) {
+					if v.Referrers() == nil || d > 4 {
+						return
+					}
+					for _, u := range *v.Referrers() {
+						switch x := u.(type) {
+						case *ssa.ChangeInterface:
+							walk(x, d+1)
+						case *ssa.MakeInterface:
+							walk(x, d+1)
+						case *ssa.Phi:
+							walk(x, d+1)
+						case *ssa.TypeAssert:
+							if ai, ok := x.AssertedType.Underlying().(*types.Interface); ok {
+								for i := 0; i < ai.NumMethods(); i++ {
+									switch ai.Method(i).Name() {
+									case "Read", "ReadByte", "ReadAt", "ReadFrom", "WriteTo", "Close":
+									default:
+										bad = r.IPos(x) + ": asserted to an interface with " + ai.Method(i).Name() + "()"
+									}
+								}
+							} else {
+								bad = r.IPos(x) + ": asserted to " + x.AssertedType.String()
+							}
+						}
+					}
+				}
+				walk(p, 0)
+				ctx.Check(bad == "", "C04.S11", ssax.Name(g)+" › reader parameter "+p.Name()+" is only read", fnPos(r, g), "no type assertion beyond reading",
+					"the decoder inspects the transport behind its reader ("+bad+"): whether a block of headers decodes then depends on the transport (buffered, compressed and framed transports report different values) and not on the bytes written, so a written header map is not read back from every stream")
+			}
+		}
+	}
+	if n == 0 {
+		ctx.Unresolved("C04.S11", "stream decoders", "no header decoder with a reader parameter found")
+	}
+}
+
+func hasMethod(it *types.Interface, name string) bool {
+	for i := 0; i < it.NumMethods(); i++ {
+		if it.Method(i).Name() == name {
+			return true
+		}
+	}
+	return false
+}
